@@ -40,7 +40,13 @@ class Config:
         self.params = tuple(params)
         self.N = N
         self.passes = passes
-        self.np = np          # integers are handed over as numpy.int64
+        # argument-type variant: False = plain Python numbers; True =
+        # integers as numpy.int64; or a comma-separated string of flags:
+        #   int64 / array0  integers as numpy.int64 / 0-d numpy arrays
+        #   cF / cN / cA    step costs as Fraction / numpy.float64 / 0-d array
+        # (a cost given as a string "p/q" is that exact rational: only
+        # meaningful together with cF)
+        self.np = np
 
     def as_json(self):
         d = {"cls": self.cls, "params": list(self.params), "N": self.N,
@@ -56,7 +62,13 @@ class Config:
 
     def __repr__(self):
         return (f"{self.cls}{self.params} N={self.N} passes={self.passes}"
-                + (" [numpy ints]" if self.np else ""))
+                + (" [numpy ints]" if self.np is True else
+                   f" [argument types: {self.np}]" if self.np else ""))
+
+    def flags(self):
+        if self.np is True:
+            return {"int64"}
+        return set(self.np.split(",")) if self.np else set()
 
     def key(self):
         return (self.cls, self.params, self.N, self.passes, self.np)
@@ -70,10 +82,16 @@ def build(cfg):
     HRevolve: (ram, disk, uf, ub, wd, rd)
     """
     c, p, N = cfg.cls, cfg.params, cfg.N
-    if cfg.np:
+    fl = cfg.flags()
+    if fl & {"cF", "cN", "cA"} and c in REVOLVE_FAMILY:
+        k = 2 if c == "HRevolve" else 1
+        p = tuple(p[:k]) + tuple(typed_cost(x, fl) for x in p[k:k + 4]) \
+            + tuple(p[k + 4:])
+    if fl & {"int64", "array0"}:
         import numpy
-        N = numpy.int64(N)
-        p = tuple(numpy.int64(x) if isinstance(x, int)
+        conv = numpy.array if "array0" in fl else numpy.int64
+        N = conv(N)
+        p = tuple(conv(x) if isinstance(x, int)
                   and not isinstance(x, bool) else x for x in p)
     with common.quiet():
         if c == "SingleMemory":
@@ -109,6 +127,27 @@ def build(cfg):
         if c == "HRevolve":
             return API.HRevolve(N, p[0], p[1], *p[2:])
     raise ValueError(c)
+
+
+def exact_cost(x):
+    """The exact value of a cost parameter ("p/q" strings are rationals)."""
+    if isinstance(x, str):
+        from fractions import Fraction
+        return Fraction(x)
+    return x
+
+
+def typed_cost(x, flags):
+    from fractions import Fraction
+    v = exact_cost(x)
+    if "cF" in flags:
+        return Fraction(v)
+    import numpy
+    if "cN" in flags:
+        return numpy.float64(float(v))
+    if "cA" in flags:
+        return numpy.array(float(v))
+    return v
 
 
 def build_kw(cfg):
@@ -177,9 +216,9 @@ def class_info(cfg):
 def costs_of(cfg):
     """(uf, ub, wd, rd) of a Revolve-family configuration."""
     if cfg.cls == "HRevolve":
-        return tuple(cfg.params[2:6])
+        return tuple(exact_cost(x) for x in cfg.params[2:6])
     if cfg.cls in REVOLVE_FAMILY:
-        return tuple(cfg.params[1:5])
+        return tuple(exact_cost(x) for x in cfg.params[1:5])
     return (1, 1, 0, 0)
 
 
@@ -356,9 +395,10 @@ def drive(cfg, observers=True, post_calls=3):
             try:
                 # a fresh int object: equal to, but not identical with, any
                 # integer the schedule holds
-                if cfg.np:
+                if cfg.flags() & {"int64", "array0"}:
                     import numpy
-                    sched.finalize(n=numpy.int64(N))
+                    sched.finalize(n=(numpy.array(N) if "array0" in cfg.flags()
+                                      else numpy.int64(N)))
                 else:
                     sched.finalize(n=int(str(N)))
                 finalised = True
@@ -635,6 +675,14 @@ def box_large(tier):
         out.append(Config("PeriodicDiskRevolve", (1,) + d, n, 1, True))
         out.append(Config("SingleDiskCopy", (), n, 2, True))
         out.append(Config("SingleMemory", (), n, 2, True))
+    # ... and as 0-d numpy arrays (integer-like but mutable), offline classes
+    for n in (3, 12):
+        out.append(Config("Multistage", (2, 1, "maximum"), n, 1, "array0"))
+        out.append(Config("Mixed", (2, "DISK"), n, 1, "array0"))
+        out.append(Config("Revolve", (2,) + d, n, 1, "array0"))
+        out.append(Config("HRevolve", (1, 1) + d, n, 1, "array0"))
+        out.append(Config("DiskRevolve", (1,) + d, n, 1, "array0"))
+        out.append(Config("PeriodicDiskRevolve", (1,) + d, n, 1, "array0"))
     # many adjoint calculations on one object ("arbitrarily many")
     many = 1300 if tier == "quick" else 3500
     out.append(Config("SingleMemory", (), 1, many))
